@@ -162,14 +162,14 @@ pub fn run(cx: &mut Ctx) {
     cx.exhaustive_blocks.push(format!("group_by_key on all keyed inputs of length <= {maxlen} over 3 keys, with pairwise distinct values and with duplicate values (position / 2), x seq + par 1..6 ({} key sequences); keys-unique / flatten / no-empty-group judged on every real output", inputs.len()));
 
     // group_by_key inside the LEFT and inside the RIGHT join side (exhaustive small scope), wide plans (65..256
-    // partitions, also inside join sides), one 4000-row x 2000-key case
+    // partitions, also inside join sides), one 12000-row x 5000-key case
     {
         use crate::pipe_injoin::SideBarrier as B;
         use crate::pipe_wide::WideKind as W;
         crate::pipe_injoin::injoin_block(cx, &[B::Gbk, B::GbkLifted, B::DistinctPerKey], 4, &xo);
         crate::pipe_wide::wide_block(cx, &[W::Gbk, W::Lifted, W::DistinctPerKey, W::JoinGbkSides], cx.budget(12, 60), &xo);
-        oracle_only_multiset(cx, &crate::pipe_wide::many_keys_prog(vec![Step::Gbk]), "rows=4000 keys=2000", &[Mode::Seq, Mode::Par(200), Mode::Par(256)]);
-        oracle_only_multiset(cx, &crate::pipe_wide::many_keys_prog(vec![Step::Gbk, Step::Glen]), "rows=4000 keys=2000", &[Mode::Seq, Mode::Par(65)]);
+        oracle_only_multiset(cx, &crate::pipe_wide::many_keys_prog(vec![Step::Gbk]), "rows=12000 keys=5000", &[Mode::Seq, Mode::Par(2), Mode::Par(3), Mode::Par(200)]);
+        oracle_only_multiset(cx, &crate::pipe_wide::many_keys_prog(vec![Step::Gbk, Step::Glen]), "rows=12000 keys=5000", &[Mode::Seq, Mode::Par(2), Mode::Par(65)]);
     }
 
     // large partitions (the planner's target is 64k rows per partition): one partition well above that,
